@@ -160,6 +160,9 @@ def modelE (ws : List String) : Option String :=
   match ws with
   | ["elect.explore", n, depth, budget] => do
     pure (explore (← decNat n) (← decNat depth) (← decNat budget))
+  | ["elect.termwrites"] =>
+    let bad := Tinode.Election.badTermWrites Tinode.Gen.Election.shape
+    pure (if bad.isEmpty then "none" else " ; ".intercalate bad)
   | ["elect.guards", a, b] => do
     let a ← decInt a; let b ← decInt b
     pure s!"{voteGuard a b} {healthStale a b} {healthNewer a b} {abandonGuard a b} {electedGuard a b} {expectVotes a} {isPartitioned a b} {electTermStep a}"
